@@ -2,7 +2,8 @@
    non-trivial runs (evaluated by vm_compute; these are examples, not the
    theorems). *)
 From stdpp Require Import gmap.
-From LV Require Import Circuit.Model Circuit.Spec Circuit.Proofs Circuit.RestartProofs Circuit.RollbackProofs Circuit.Props.
+From LV Require Import Circuit.Model Circuit.Spec Circuit.Discipline Circuit.Proofs Circuit.RestartProofs
+  Circuit.RollbackProofs Circuit.DisciplineProofs Circuit.Props.
 Local Open Scope N_scope.
 
 Definition k1 : key := (1, 0).
@@ -173,4 +174,48 @@ Example failed_trim_stale_keystone :
   d_ks (c_disk c) !! (2,2) = Some (1,2) /\ d_ks (c_disk c) !! (2,1) = Some (1,2) /\
   opened m' !! (2,1) = Some (inr (1,2)) /\ trimmed_by (rc_active failed_trim_rc) (2,1) = false /\
   classify (found_obj m' (1,2)) = AFail /\ classify (found_obj m' (1,1)) = ADrop.
+Proof. vm_compute. repeat split; reflexivity. Qed.
+
+(* ------------------------------------------------------------------ *)
+(* C07_discipline_invariant: a disciplined history as the link and the switch
+   produce it -- duplicate in a commit batch, a failing commit, a keystone batch,
+   a response, a failing and a successful delete, a link flap (trim + re-open with
+   the same index), a restart that rolls the uncommitted keystone back, the
+   re-forward being failed back, and the final teardown *)
+Definition disciplined_history : list sop :=
+  [ SCall (CCommit [((1,0), 5); ((1,1), 6); ((1,0), 5)]) true;
+    SCall (COpen [((1,0), (2,0)); ((1,1), (2,1))]) true;
+    SCall (CCommit [((1,2), 7)]) false;
+    SCall (CClose (2,0)) true;
+    SCall (CDelete [(1,0)]) false;
+    SCall (CDelete [(1,0)]) true;
+    SCall (CTrim 2 1) true;
+    SCall (COpen [((1,1), (2,1))]) true;
+    SRestart (RConf [] [] [(2, false, None, 1)]);
+    SCall (CCommit [((1,1), 6)]) true;
+    SCall (CFail (1,1)) true;
+    SCall (CDelete [(1,1)]) true ].
+
+Example disciplined_history_ok :
+  seq_disciplined init disciplined_history /\
+  (* mid-way: one open, one half-open circuit after the restart *)
+  (let c := srun init (take 9 disciplined_history) in
+   size (pending (c_mem c)) = 1%nat /\ size (opened (c_mem c)) = 0%nat /\
+   classify (found_obj (c_mem c) (1,1)) = AFail) /\
+  (let c := srun init disciplined_history in
+   size (pending (c_mem c)) = 0%nat /\ size (opened (c_mem c)) = 0%nat /\
+   size (d_adds (c_disk c)) = 0%nat /\ size (d_ks (c_disk c)) = 0%nat).
+Proof.
+  split; [apply seq_disciplinedb_sound; vm_compute; reflexivity|].
+  vm_compute. repeat split; reflexivity.
+Qed.
+
+(* ... and the discipline is what excludes the hazards: the double keystone and the
+   duplicate outgoing key are rejected by the predicate *)
+Example hazards_are_undisciplined :
+  seq_disciplinedb init [ SCall (CCommit [((1,0), 5)]) true; SCall (COpen [((1,0), (2,0))]) true;
+                          SCall (COpen [((1,0), (2,1))]) true ] = false /\
+  seq_disciplinedb init [ SCall (CCommit [((1,0), 5); ((1,1), 6)]) true;
+                          SCall (COpen [((1,0), (2,0)); ((1,1), (2,0))]) true ] = false /\
+  seq_disciplinedb init [ SCall (CCommit [((1,0), 5)]) true; SCall (CDelete [(1,0)]) true ] = false.
 Proof. vm_compute. repeat split; reflexivity. Qed.
